@@ -70,6 +70,26 @@ class Path:
             return self.events[i].data
         return stack[-1]
 
+    def inlined_return(self, call: ast.AST, before: Optional[int] = None) -> Optional[Tuple[int, ast.expr]]:
+        """For a call whose callee was spliced into this path: (index of its 'iret' event, the returned expression) of
+        the activation that ended last before event *before*; None when the call was not inlined / returned nothing."""
+        hi = len(self.events) if before is None else before
+        k = next((k for k in range(hi - 1, -1, -1) if self.events[k].kind == "exit" and self.events[k].node is call), None)
+        if k is None:
+            return None
+        d = 0
+        for m in range(k - 1, -1, -1):
+            e = self.events[m]
+            if e.kind == "exit":
+                d += 1
+            elif e.kind == "enter":
+                if d == 0:
+                    return None
+                d -= 1
+            elif e.kind == "iret" and d == 0:
+                return (m, e.node.value) if e.node.value is not None else None
+        return None
+
     def index_of(self, pred: Callable[[Ev], bool], start: int = 0) -> int:
         for i in range(start, len(self.events)):
             if pred(self.events[i]):
